@@ -119,7 +119,7 @@ LAT = lattice()
 
 BINOPS = ["add", "sub", "mul", "div", "idiv", "mod", "pow", "lt", "le", "eq", "gt", "ge", "ne",
           "band", "bor", "bxor", "shl", "shr", "fmod", "ult", "max", "min"]
-UNOPS = ["unm", "bnot", "abs", "floor", "ceil", "tointeger", "modf", "mtype"]
+UNOPS = ["unm", "bnot", "abs", "floor", "ceil", "tointeger", "modf", "mtype", "keytype"]
 NOMODEL = {"pow"}          # Go-internal consistency only
 
 
@@ -191,6 +191,52 @@ def defect_fmod(op, a, b):
         return False
     sa, sb = sign_of(a), sign_of(b)
     return sa is not None and sb is not None and sa * sb < 0
+
+
+# ----------------------------------------------------------------------------- building (cached) and proof obligations (concurrent)
+def cone_hash():
+    """Hash of everything the extracted oracle depends on: our Coq cone (Base/, Num/), Extract.v, the drivers."""
+    import glob
+    import hashlib
+    h = hashlib.sha256()
+    files = sorted(glob.glob(os.path.join(vlib.COQ, "theories", "Base", "*.v")) + glob.glob(os.path.join(vlib.COQ, "theories", "Num", "*.v")))
+    files += [os.path.join(vlib.ORACLE, "num", "Extract.v"), os.path.join(vlib.ORACLE, "num", "driver.ml"), os.path.join(vlib.ORACLE, "common", "proto.ml")]
+    for f in files:
+        h.update(f.encode())
+        h.update(open(f, "rb").read())
+    return h.hexdigest()
+
+
+def cached_oracle(ck):
+    """The extracted oracle is rebuilt only when one of its sources changed (content hash), not whenever
+    any file of the shared Coq tree is touched."""
+    exe = os.path.join(vlib.ORACLE, "num", "oracle.exe")
+    stamp = os.path.join(vlib.ORACLE, "num", ".cone.sha256")
+    hh = cone_hash()
+    if os.path.exists(exe) and os.path.exists(stamp) and open(stamp).read().strip() == hh:
+        ck.cov["oracle_rebuilt"] = False
+        return exe
+    exe = ck.build_oracle("num")
+    if exe:
+        with open(stamp, "w") as f:
+            f.write(hh)
+    ck.cov["oracle_rebuilt"] = True
+    return exe
+
+
+class Obligations(threading.Thread):
+    """Re-checks the property file (coqc + Print Assumptions) while the correspondence runs."""
+
+    def __init__(self, ck, prop):
+        threading.Thread.__init__(self)
+        self.ck, self.prop, self.ok = ck, prop, False
+
+    def run(self):
+        try:
+            self.ok = self.ck.obligations(self.prop, clean=False)
+        except Exception as ex:     # a crash of the obligation step is a failed obligation
+            self.ck.cov["obligation_failure"] = "exception: %r" % (ex,)
+            self.ok = False
 
 
 # ----------------------------------------------------------------------------- running
@@ -449,7 +495,9 @@ def check_str(ck, gvh, oracle, tier):
     for f in read_corpus("C02", "str.txt"):
         cases.append((bytes.fromhex(f[0]), "corpus", len(f) > 1 and f[1] == "V"))
     ck.cov["corpus_str"] = len(cases)
-    fixed = ["+5", "10", " 10 ", "0x10", "1e1"]
+    fixed = ["+5", "10", " 10 ", "0x10", "1e1", "9223372036854775807", "9223372036854775808", "-9223372036854775808", "-9223372036854775809",
+             "9223372036854775808.0", "-9223372036854775808.0", "0x1p63", "-0x1p63", "0x1p64", "9.2233720368547758e18", "9223372036854775807.0", "9007199254740993",
+             "0x7fffffffffffffff", "0x8000000000000000", "0xffffffffffffffff", "1e308", "-1e400", "0x.8p1", "5e-1", "1.5", "-0.0", "nan", "inf"]
     for t in fixed:
         cases.append((t.encode(), "fixed", False))
     for i in range(n):
@@ -511,6 +559,10 @@ def check_str(ck, gvh, oracle, tier):
                 ck.known_finding(k)
             else:
                 report(field + ":" + tag, "%s(%r) = %s on the implementation, the manual's numeral syntax gives %s" % (what, text, go, S), lines[i].split(" ", 1)[1], impl[i], model[i])
+        # rt.ToInt on the string: string -> number -> integer (only floats with an exact integer value in range)
+        if g["I"] != m["I"]:
+            report("I:" + tag, "runtime.ToInt(%r) = %s on the implementation, the manual (string -> number -> integer) gives %s" % (text, g["I"], m["I"]),
+                   lines[i].split(" ", 1)[1], impl[i], model[i])
         if valid:
             go = g["L"]
             if go != S:
@@ -536,20 +588,23 @@ def check_str(ck, gvh, oracle, tier):
 
 def run(tier, seed):
     ck = vlib.Check("C02", tier, seed, level="proof")
-    ok_obl = ck.obligations(PROP, clean=False)
     # VERIF_NUM_OVERLAY / VERIF_NUM_TAG: mutation experiments only (go build -overlay, separate binary name)
     gvh, err = ck.build_gvh(pkg="./cmd/gvh-num", name="gvh_num" + os.environ.get("VERIF_NUM_TAG", ""),
                             overlay=os.environ.get("VERIF_NUM_OVERLAY"))
     if gvh is None:
         ck.violation("harness does not build against /repo", {"kind": "build", "stderr": err[-3000:]}, no_input=True)
         return ck.finish("n/a", TRUSTED, [])
-    oracle = ck.build_oracle("num")
+    oracle = cached_oracle(ck)
     if oracle is None:
         ck.violation("oracle (extracted model) does not build", {"kind": "build"}, no_input=True)
         return ck.finish("n/a", TRUSTED, [])
+    obl = Obligations(ck, PROP)
+    obl.start()
     check_f2i(ck, gvh, oracle, tier)
     check_ops(ck, gvh, oracle, tier)
     check_str(ck, gvh, oracle, tier)
+    obl.join()
+    ok_obl = obl.ok
     if not ok_obl:
         ck.violation("proof obligations of C02 no longer check: " + str(ck.cov.get("obligation_failure", ""))[:300],
                      {"kind": "proof", "theorem_file": PROP, "detail": ck.cov.get("obligation_failure")}, no_input=True)
@@ -569,7 +624,7 @@ def replay(path, seed):
     r = json.load(open(path))
     ck = vlib.Check("C02", "quick", seed)
     gvh, _ = ck.build_gvh(pkg="./cmd/gvh-num", name="gvh_num")
-    oracle = ck.build_oracle("num")
+    oracle = cached_oracle(ck)
     mode = r.get("mode", "ops")
     line = "r " + r["line"].replace(" None", "")
     _, a, _ = vlib.run_lines(gvh, [mode], [line])
